@@ -266,15 +266,15 @@ class C12(Check):
             "too-small attempt in the middle of a multi-part operation, or a Final with zero buffered bytes.")
     assumptions = ["Update/Final on single-part-only mechanisms and single-part calls after an Update are not generated "
                    "(the statement does not fix their outcome)", "arguments are non-NULL and well formed (NULL arguments belong to C17)"]
-    essential_labels = {"size_queries": 2000, "too_small_answers": 800, "noise_active": 1500, "noise_not_initialized": 1500,
-                        "mid_multipart_query": 300}
+    essential_labels = {"size_queries": 3000, "too_small_answers": 2000, "noise_active": 1500, "noise_not_initialized": 2000,
+                        "mid_multipart_query": 1500}
 
     def setup(self, ctx):
         ctx.shared["tpl"] = Template(ctx.env, ntokens=1)
         ctx.shared["stage"] = Stage(ctx.env, ctx.shared["tpl"], reuse=not ctx.replaying)
 
     def budget(self, tier):
-        return {"examples": 4800, "shards": 16} if tier == "quick" else {"examples": 48000, "shards": 16}
+        return {"examples": 16000, "shards": 16} if tier == "quick" else {"examples": 160000, "shards": 16}
 
     def strategy(self, tier):
         chunks = st.lists(st.integers(0, 40), min_size=1, max_size=5)
